@@ -1,9 +1,11 @@
 (* Second tie to the source (DESIGN.md 2.5) for coq/Model/TWKB.v (properties C07, C08): the TWKB type
    codes, the metadata-header bits, the bit layout of the type/precision byte and of the
    extended-precision byte (writer and parser), the precision limits of MarshalTWKB, the kinds for
-   which an ID list is refused and the dispatch on the kind, as re-read from geom/twkb.go,
-   geom/twkb_write.go and geom/twkb_parser.go into Gen/Consts.v on every run, are the ones the
-   model computes with.  A changed constant in the Go source makes this file fail to compile. *)
+   which an ID list is refused, the dispatch on the kind, and the parser's count guards (every call
+   p.checkCount(count, E): which methods have one and their E; the comparison checkCount makes; the
+   values p.dimensions takes), as re-read from geom/twkb.go, geom/twkb_write.go and
+   geom/twkb_parser.go into Gen/Consts.v on every run, are the ones the model computes with.
+   A changed constant in the Go source makes this file fail to compile. *)
 From Coq Require Import NArith ZArith List String Bool.
 From SF Require Import Gen.Consts Proofs.Consts_tie_lib Base.Outcome Base.Bytes Base.GeomAST Base.Varint Model.TWKB.
 Import ListNotations.
@@ -211,4 +213,205 @@ Proof. vm_compute. reflexivity. Qed.
 (* geom/twkb.go: twkbMaxDimensions = 4 = the largest Dimension() *)
 Example tie_twkb_max_dimensions :
   Consts.twkb_max_dimensions = Some (Z.of_nat (fold_right Nat.max 0%nat (map dim all_ctypes))).
+Proof. vm_compute. reflexivity. Qed.
+
+(* ---------------- the parser's count guards (fix F7; C08 rests on them, C07 on their not refusing a
+   document the writer produces) *)
+
+(* geom/twkb_parser.go: the six methods of twkbParser that call p.checkCount(count, E); the table has
+   one row per call.  The rows are looked up by method name, so the order of the methods in the file
+   is irrelevant; a method with no call or with two has no row here. *)
+Definition guard_fns : list string :=
+  ["nextMultiPoint"; "nextMultiLineString"; "nextMultiPolygon"; "nextGeometryCollection";
+   "parsePointCountAndArray"; "parseIDList"].
+Definition guard_row (f : string) : option (string * Z) :=
+  match filter (fun r => String.eqb (fst (fst r)) f) Consts.twkb_parse_count_guards with
+  | [(_, s, a)] => Some (s, a)
+  | _ => None
+  end.
+(* E as the Go source has it, for a parser whose coordinates type is ct (p.dimensions = dim ct is
+   tie_twkb_parse_dimensions below).  A row of any other shape (the generator's "?..." rows) has no value. *)
+Definition minb_go (f : string) (ct : ctype) : option Z :=
+  match guard_row f with
+  | Some ("", a) => Some a
+  | Some ("dimensions", a) => Some (Z.of_nat (dim ct) + a)%Z
+  | _ => None
+  end.
+Example tie_twkb_count_guard_fns :
+  Nat.eqb (List.length Consts.twkb_parse_count_guards) (List.length guard_fns) &&
+  forallb (fun f => match guard_row f with Some _ => true | None => false end) guard_fns = true.
+Proof. vm_compute. reflexivity. Qed.
+
+(* documents: type byte (precision 0), metadata byte, extended-precision byte when ct is not XY *)
+Definition hdr_bytes (kind : N) (ct : ctype) (ids : bool) : list N :=
+  let ext := ((if has_z ct then 1 else 0) + (if has_m ct then 2 else 0))%N in
+  kind :: ((if ids then 4 else 0) + (if (ext =? 0)%N then 0 else 8))%N :: (if (ext =? 0)%N then [] else [ext]).
+Definition zeros (n : nat) : list N := repeat 0%N n.
+Definition n_elems (g : TWKB.zgeom) : nat :=
+  match g with GLine l => List.length (line_vs l) | _ => TWKB.member_count g end.
+Definition accepts_n (bs : list N) (ct : ctype) (n : nat) : bool :=
+  match TWKB.tdec bs with
+  | Ok (g, i) => Nat.eqb (n_elems g) n && ct_eqb (i_ct i) ct
+  | _ => false
+  end.
+(* the smallest encoding of n elements behind each guard (document, number r of bytes that follow the
+   count): n points of dim ct zero deltas; n LineStrings of 0 points; n Polygons of 0 rings; n empty
+   members (type byte + twkbIsEmpty, every kind in turn) *)
+Definition min_case (f : string) (ct : ctype) (n : nat) : option (list N * nat) :=
+  let mk (kind : N) (body : list N) := Some ((hdr_bytes kind ct false ++ N.of_nat n :: body)%list, List.length body) in
+  match f with
+  | "nextMultiPoint" => mk 4%N (zeros (n * dim ct))
+  | "nextMultiLineString" => mk 5%N (zeros n)
+  | "nextMultiPolygon" => mk 6%N (zeros n)
+  | "nextGeometryCollection" => mk 7%N (flat_map (fun i => [N.of_nat (i mod 7 + 1); 16%N]) (seq 0 n))
+  | "parsePointCountAndArray" => mk 2%N (zeros (n * dim ct))
+  | _ => None
+  end.
+Definition guard_admits (mb : Z) (c r : nat) : bool := (Z.of_nat c <=? Z.of_nat r / mb)%Z.
+(* The model decodes each of them (n = 1 .. 8, every coordinates type) to n elements, and the guard of the
+   Go source, E taken from the table, lets the same count through for the same remaining length: a guard
+   that asks for more bytes per element than the smallest element has (or divides by zero) fails here. *)
+Example tie_twkb_count_guards_admit_minimal :
+  forallb (fun f => forallb (fun ct => forallb (fun n =>
+    match min_case f ct n, minb_go f ct with
+    | Some (bs, r), Some mb => accepts_n bs ct n && guard_admits mb n r
+    | _, _ => false
+    end) (seq 1 8)) all_ctypes)
+    ["nextMultiPoint"; "nextMultiLineString"; "nextMultiPolygon"; "nextGeometryCollection";
+     "parsePointCountAndArray"] = true.
+Proof. vm_compute. reflexivity. Qed.
+(* the same for parseIDList, through UnmarshalTWKBIDList: n one-byte IDs *)
+Example tie_twkb_count_guard_idlist_minimal :
+  forallb (fun n =>
+    match TWKB.tread_ids (hdr_bytes 4%N XY true ++ N.of_nat n :: zeros n)%list, minb_go "parseIDList" XY with
+    | Ok (Some l), Some mb => Nat.eqb (List.length l) n && guard_admits mb n n
+    | _, _ => false
+    end) (seq 1 8) = true.
+Proof. vm_compute. reflexivity. Qed.
+
+(* The two guards in front of a count-sized make(): exact agreement, through the model's allocation
+   counter, for every count c and every remaining length r in 0 .. 12.
+   parsePointCountAndArray: a LineString of ct, count c, r zero bytes; make([]float64, c*dims) = 8*c*dims
+   bytes is requested iff c <= r / E. *)
+Definition small : list nat := seq 0 13.
+Example tie_twkb_count_guard_point_array_alloc :
+  forallb (fun ct =>
+    match minb_go "parsePointCountAndArray" ct with
+    | Some mb =>
+        forallb (fun c => forallb (fun r =>
+          N.eqb (TWKB.tdec_alloc (hdr_bytes 2%N ct false ++ N.of_nat c :: zeros r)%list)
+                (if guard_admits mb c r then 8 * N.of_nat c * N.of_nat (dim ct) else 0)) small) small
+    | None => false
+    end) all_ctypes = true.
+Proof. vm_compute. reflexivity. Qed.
+(* parseIDList: a MultiPoint of ct with the ID-list flag, count c, r zero bytes; make([]int64, c) = 8*c
+   bytes is requested iff c <= r / E (the points that follow request nothing that is counted) *)
+Example tie_twkb_count_guard_idlist_alloc :
+  forallb (fun ct =>
+    match minb_go "parseIDList" ct with
+    | Some mb =>
+        forallb (fun c => forallb (fun r =>
+          N.eqb (TWKB.tdec_alloc (hdr_bytes 4%N ct true ++ N.of_nat c :: zeros r)%list)
+                (if guard_admits mb c r then 8 * N.of_nat c else 0)) small) small
+    | None => false
+    end) all_ctypes = true.
+Proof. vm_compute. reflexivity. Qed.
+(* nextGeometryCollection is the one member guard whose verdict the decoder's result shows: count c and r
+   zero bytes are refused by the guard ("unexpected end") iff c > r / E, and otherwise the first member,
+   type code 0, is an unknown geometry type (c = 0: the empty collection) *)
+Definition outcome_code {A} (o : outcome A) : N :=
+  match o with Ok _ => 0 | Err EEOF => 1 | Err EGeomType => 2 | _ => 3 end%N.
+Example tie_twkb_count_guard_collection_exact :
+  forallb (fun ct =>
+    match minb_go "nextGeometryCollection" ct with
+    | Some mb =>
+        forallb (fun c => forallb (fun r =>
+          N.eqb (outcome_code (TWKB.tdec (hdr_bytes 7%N ct false ++ N.of_nat c :: zeros r)%list))
+                (if guard_admits mb c r then (if Nat.eqb c 0 then 0 else 2) else 1)) small) small
+    | None => false
+    end) all_ctypes = true.
+Proof. vm_compute. reflexivity. Qed.
+(* For the other three member guards (points, LineStrings, Polygons) a guard that asks for LESS than the
+   smallest element changes neither result nor counter of the model (the member loop runs out of input
+   with the same error), so E is also compared, as a value, with the argument rd_geom passes to
+   count_and_ids / parse_count_array passes to check_count. *)
+Definition minb_model (f : string) (ct : ctype) : nat :=
+  match f with
+  | "nextMultiPoint" | "parsePointCountAndArray" => dim ct
+  | "nextGeometryCollection" => 2
+  | _ => 1
+  end.
+Example tie_twkb_count_guard_values :
+  forallb (fun f => forallb (fun ct =>
+    match minb_go f ct with Some mb => Z.eqb mb (Z.of_nat (minb_model f ct)) | None => false end)
+    all_ctypes) guard_fns = true.
+Proof. vm_compute. reflexivity. Qed.
+
+(* geom/twkb_parser.go:checkCount(count uint64, minBytesPerElement int)
+     remaining := uint64(len(p.twkb) - p.pos); if count > remaining/uint64(minBytesPerElement) { error }; nil
+   the operands as text, the comparison through check_count (count c, r unread bytes, E = 1 .. 4) *)
+Definition shape (k : string) : option string := assoc_s k Consts.twkb_parse_check_count_shape.
+Definition go_cmp (op : string) : option (Z -> Z -> bool) :=
+  match op with
+  | ">" => Some Z.gtb | ">=" => Some Z.geb | "<" => Some Z.ltb | "<=" => Some Z.leb
+  | "==" => Some Z.eqb | "!=" => Some (fun a b => negb (Z.eqb a b)) | _ => None
+  end.
+Definition model_refuses (c mb r : nat) : bool :=
+  match TWKB.check_count (N.of_nat c) mb {| s_in := zeros r; s_pos := 5; s_alloc := 0 |} with
+  | TErr _ _ => true | _ => false end.
+Example tie_twkb_check_count_shape :
+  List.length Consts.twkb_parse_check_count_shape = 7%nat /\
+  map shape ["params"; "v0"; "lhs"; "rhs"; "then"; "else"] =
+  map Some ["uint64,int"; "uint64(len(recv.twkb)-recv.pos)"; "p0"; "v0/uint64(p1)"; "error"; "nil"] /\
+  match shape "op" with
+  | Some op =>
+      match go_cmp op with
+      | Some cmp =>
+          forallb (fun mb => forallb (fun c => forallb (fun r =>
+            Bool.eqb (model_refuses c mb r) (cmp (Z.of_nat c) (Z.of_nat r / Z.of_nat mb)%Z)) small) small) (seq 1 4)
+      | None => false
+      end
+  | None => false
+  end = true.
+Proof. repeat split; vm_compute; reflexivity. Qed.
+
+(* geom/twkb_parser.go: newTWKBParser {ctype: DimXY, dimensions: 2}; parseExtendedPrecision
+   switch { case p.hasZ && p.hasM: DimXYZM, 4; case p.hasZ: DimXYZ, 3; case p.hasM: DimXYM, 3 }.
+   The first case whose condition holds decides, otherwise the constructor's values stay. *)
+Definition dims_cond (c : string) (hz hm : bool) : option bool :=
+  match c with
+  | "recv.hasZ&&recv.hasM" | "recv.hasM&&recv.hasZ" => Some (hz && hm)
+  | "recv.hasZ" => Some hz
+  | "recv.hasM" => Some hm
+  | "default" => Some true
+  | _ => None
+  end.
+Definition go_dims (hz hm : bool) : option (string * Z) :=
+  match Consts.twkb_parse_dimensions with
+  | ("", ct0, d0) :: cases =>
+      (fix go (l : list (string * string * Z)) : option (string * Z) :=
+         match l with
+         | [] => Some (ct0, d0)
+         | (c, ct, d) :: r =>
+             match dims_cond c hz hm with
+             | Some true => Some (ct, d)
+             | Some false => go r
+             | None => None
+             end
+         end) cases
+  | _ => None
+  end.
+(* for each of the four has-Z / has-M combinations the table gives the name of mk_ct hz hm and dim of it,
+   and a LineString of that type with one point decodes from exactly that many ordinate bytes (not from
+   one fewer) *)
+Example tie_twkb_parse_dimensions :
+  forallb (fun hz => forallb (fun hm =>
+    let ct := mk_ct hz hm in
+    match go_dims hz hm with
+    | Some (name, d) =>
+        String.eqb name (go_ctype_name ct) && Z.eqb d (Z.of_nat (dim ct)) &&
+        accepts_n (hdr_bytes 2%N ct false ++ 1%N :: zeros (Z.to_nat d))%list ct 1 &&
+        negb (accepts_n (hdr_bytes 2%N ct false ++ 1%N :: zeros (Z.to_nat d - 1))%list ct 1)
+    | None => false
+    end) bools) bools = true.
 Proof. vm_compute. reflexivity. Qed.
